@@ -73,7 +73,7 @@ func genRoundtrip(r *hx.Rand, i int) interface{} {
 	if r.Chance(1, 2) {
 		u = &rtUniverse
 	}
-	ds := u.GenScript(r, n)
+	ds := genScript(r, u, n)
 	// scripts whose weight commands fail produce no table: drop failing weight commands most of the time
 	if r.Chance(4, 5) {
 		var ok []rt.Def
